@@ -325,6 +325,17 @@ def _loop_tests(f, body, acc):
     return False
 
 
+def _sview(fx, f, _memo={}):
+    k = (id(fx), f.path)
+    if k not in _memo:
+        try:
+            import views
+            _memo[k] = views.view(fx, f.path, depth=3, threaded=False) or f
+        except Exception:
+            _memo[k] = f
+    return _memo[k]
+
+
 def run(fx, cfgname="A", reach=None):
     """Returns (obs, partial summary)."""
     fns = list(ro.fns_in_scope(fx, crates=("libxcp", "libfs")))
@@ -343,13 +354,16 @@ def run(fx, cfgname="A", reach=None):
                 o, p = q.names(t)
                 if o not in partial and p not in partial:
                     continue
-                cls, det = classify_count(fx, f, bi, t)
+                # classified on the function's inlined view (own block and local indices kept): a private helper
+                # that checks or forwards the count (`nonzero(n)?`, `written_in_full(w, r)?`) is part of the flow
+                fv = _sview(fx, f)
+                cls, det = classify_count(fx, fv, bi, t)
                 site_cls[(f.path, bi)] = (t, cls, det)
                 if "FORWARDED" in cls:
-                    flow = Flow(f, table=COUNT_FLOW, through_agg=True, through_bin=False, through_field=True,
+                    flow = Flow(fv, table=COUNT_FLOW, through_agg=True, through_bin=False, through_field=True,
                                 skip_variants=("Break", "Err", "None"))
                     tn, _p = flow.run([t["dest"]["l"]])
-                    if _fails_on_zero(f, tn) and f.path not in NONZERO:
+                    if _fails_on_zero(fv, tn) and f.path not in NONZERO:
                         NONZERO.add(f.path)
                         changed = True
                 if "FORWARDED" in cls and not (cls & {"ACCUMULATED", "COMPARED"}):
